@@ -361,8 +361,9 @@ def check_fn_batch(ctx, tools, prec, cases, fault, stats):
                 else:
                     defect = "workinit_align_overlap"
             key = {"kind": "user_workspace", "defect": defect, "prec": PCH[prec]}
+            diff = next(((a, b) for a, b in zip(co + ["<eof>"], mo + ["<eof>"]) if a != b), ("", ""))
             what = "blocks handed out by the real p%sgstrf_MemInit/WorkInit are outside [0,lwork) or overlap (%s; model %s)" % (
-                PCH[prec], defect, "agrees" if agree else "DISAGREES")
+                PCH[prec], defect, "agrees" if agree else "DISAGREES on this case: C '%s' / model '%s'" % (diff[0][:90], diff[1][:90]))
         elif end.endswith("signal=14"):
             mh = bool(mo) and mo[-1].endswith("signal=14")
             key = {"kind": "hang", "defect": "meminit_retry_loop_annz_le_1" if (agree and mh and par and par["annz"] <= 1) else "unmodelled", "prec": PCH[prec]}
@@ -487,7 +488,7 @@ def classify_prediction(mlines, mcom, P):
     rets = [int(x["ret"]) for x in ws]
     if all(r == 0 for r in rets) and len(rets) == P:
         return {"kind": "ok", "glu": d}
-    return {"kind": "workfail", "rets": sorted(set(r for r in rets if r)), "glu": d}
+    return {"kind": "workfail", "rets": sorted(set(r for r in rets if r)), "some_ok": any(r == 0 for r in rets), "glu": d}
 
 
 def f32(z):
@@ -537,9 +538,11 @@ def drv_workspace_sweep(ctx, tools, rng, prec, stats, flavor="hooks"):
             lws |= {p + d for p in pre for d in (-1, 1)} | {total // 2, total * 3 // 4, total + 16 + (P - 1) * (isz + dsz) + 8}
         for lw in sorted(x for x in lws if x > 0):
             jobs.append((call, P, lw, ba, mat, n, env, pr))
+        jobs.append(("gssvx", P, -1, ba, mat, n, env, pr))      # the workspace query through the expert driver
     if not jobs:
         return
-    text = "".join(drv_case("j%d" % i, j[0], j[1], j[2], j[4], j[5], balign=j[3], env=j[6], poison=0) for i, j in enumerate(jobs))
+    # the query runs with L.Store = U.Store = NULL: it must not touch them
+    text = "".join(drv_case("j%d" % i, j[0], j[1], j[2], j[4], j[5], balign=j[3], env=j[6], poison=1 if j[2] == -1 else 0) for i, j in enumerate(jobs))
     out = parse_drv(run_cases(exe, text, alarm=20, timeout=900))
     # model predictions
     mtext = ""
@@ -555,12 +558,23 @@ def drv_workspace_sweep(ctx, tools, rng, prec, stats, flavor="hooks"):
         if r is None or r["end"] is None:
             ctx.broken.append("driver harness produced no result for a case (prec %s)" % PCH[prec])
             continue
+        if r["end"].startswith("signal:14"):        # machine load? run it again alone with a long alarm before believing a hang
+            r2 = parse_drv(run_cases(exe, drv_case(cid, call, P, lw, mat, n, balign=ba, env=env, poison=1 if lw == -1 else 0), alarm=90)).get(cid)
+            if r2 and r2["end"]:
+                r = r2
         pred = classify_prediction(mo.get(cid, []), mc.get(cid, []), P)
         stats["drv_cases"] += 1
         ctx.count({"drv": [call, P, lw, ba, n, mat[1], sorted(env.items())], "prec": prec, "fl": flavor}, kind="drv:%s:%s" % (flavor, pred["kind"]))
         replay = {"part": "drv", "prec": prec, "flavor": flavor, "P": P, "lwork": lw,
-                  "case": drv_case(cid, call, P, lw, mat, n, balign=ba, env=env, poison=0)}
+                  "case": drv_case(cid, call, P, lw, mat, n, balign=ba, env=env, poison=1 if lw == -1 else 0)}
+        if pred["kind"] == "fail":
+            replay["expect_info"] = pred["code"]
         res = r["res"]
+        if call == "gssvx" and r["ref"] is None and res is None and r["end"] in ("exit:255", "exit:97") and "exceeded" in r["diag"]:
+            # the reference run in system space already stopped through the abort path (fill estimate sp_ienv(6..8) too
+            # small for this matrix): nothing to compare
+            stats["drv_ref_abort"] = stats.get("drv_ref_abort", 0) + 1
+            continue
         aborted = r["end"] in ("exit:255", "exit:97", "exit:1") and bool(r["diag"])     # SUPERLU_ABORT / intMalloc exit with a diagnostic
         crashed = not r["end"].startswith("exit:0") and not aborted
         canary_bad = bool(res) and res.get("canary") == "bad"
@@ -574,6 +588,8 @@ def drv_workspace_sweep(ctx, tools, rng, prec, stats, flavor="hooks"):
             symptom = "returned info=0 with L/U arrays outside the user buffer"
         elif info == 0 and float(res.get("relerr", "nan")) > (1e-3 if prec in (0, 2) else 1e-9):
             symptom = "returned info=0 with a wrong solution (relerr %s)" % res.get("relerr")
+        elif lw == -1 and res and pred["kind"] == "fail" and (info != pred["code"] or int(float(res.get("total_needed", "nan"))) != f32(pred["code"] - n)):
+            symptom = "workspace query returned info=%s total_needed=%s, the model of MemInit says %d" % (info, res.get("total_needed"), pred["code"])
         elif info is not None and 0 < info <= n:
             symptom = "returned info=%d (<= n: 'singular') for a nonsingular matrix" % info
         elif info is not None and info < 0:
@@ -595,7 +611,8 @@ def drv_workspace_sweep(ctx, tools, rng, prec, stats, flavor="hooks"):
         stats["drv_compared"] += 1
         if aborted:
             stats["drv_aborted"] = stats.get("drv_aborted", 0) + 1
-            if pred["kind"] in ("ok", "fail"):
+            # "Storage for ... exceeded" (Glu_alloc) is a legitimate stop once MemInit has succeeded: capacities are estimates
+            if pred["kind"] == "fail" or (pred["kind"] == "ok" and "exceeded" not in r["diag"]):
                 ctx.broken.append("correspondence ustack driver-level prec=%s: model predicts %s, p?%s stopped through the abort path: %s (lwork %d)" % (PCH[prec], pred["kind"], call, r["diag"][:80], lw))
                 _store_corr(ctx, replay, r, pred)
         elif pred["kind"] == "ok":
@@ -607,7 +624,11 @@ def drv_workspace_sweep(ctx, tools, rng, prec, stats, flavor="hooks"):
                 ctx.broken.append("correspondence ustack driver-level prec=%s: model predicts info=%d, p?%s returned %s (lwork %d)" % (PCH[prec], pred["code"], call, info, lw))
                 _store_corr(ctx, replay, r, pred)
         elif pred["kind"] == "workfail":
-            if info is None or info <= n:
+            # with several threads the outcome depends on timing: a thread that has finished has released the tail
+            # before a late one asks for its arrays; info = 0 is then legitimate if at least one thread fits
+            if info == 0 and P > 1 and pred.get("some_ok"):
+                stats["drv_timing_dependent"] = stats.get("drv_timing_dependent", 0) + 1
+            elif info is None or info <= n:
                 ctx.broken.append("correspondence ustack driver-level prec=%s: model predicts a WorkInit failure, p?%s returned %s (lwork %d)" % (PCH[prec], call, info, lw))
                 _store_corr(ctx, replay, r, pred)
         elif pred["kind"] in ("wild", "overlap"):
@@ -676,6 +697,49 @@ def drv_thread_stress(ctx, tools, rng, prec, stats, runs):
                               key={"kind": "user_workspace", "defect": "workfree_resets_live_tail", "prec": PCH[prec]})
     ctx.count({"stress": prec, "runs": runs}, kind="drv:stress-P3-4")
     stats["stress_bad"] = stats.get("stress_bad", 0) + bad
+
+
+def drv_thread_timed(ctx, tools, rng, prec, stats):
+    """the same defect made (nearly) deterministic: the observation hook of the tree is used for TIMING ONLY (harness
+    delay_cb: the thread that takes the last panel is slow, threads 2,3 enter after another thread has run WorkFree).
+    Controls with the same timing: nprocs = 2 (user space) and nprocs = 4 with lwork = 0 must be clean."""
+    exe = tools.exe("drv", prec, "hooks")
+    n = 12
+    mat = gen_matrix(rng, n, 0.2)
+    env = {1: 4, 2: 1, 3: 8, 4: 4}
+    tol = 1e-3 if prec in (0, 2) else 1e-9
+
+    def runs(P, lw, k):
+        text = "".join(drv_case("t%d" % i, "gstrf", P, lw, mat, n, env=env, poison=0).replace("END\n", "DELAY 1\nEND\n") for i in range(k))
+        out = parse_drv(run_cases(exe, text, alarm=30))
+        bad = []
+        for r in out.values():
+            res = r["res"]
+            if not res or not (r["end"] or "").startswith("exit:0"):
+                bad.append("terminated with %s" % r["end"])
+            elif res["info"] != "0":
+                bad.append("info=%s for a nonsingular matrix" % res["info"])
+            elif float(res["relerr"]) > tol:
+                bad.append("info=0 with a wrong solution (relerr %s)" % res["relerr"])
+        return bad, len(out)
+    for P, lw, k, expect_clean in ((4, 200000, 4, False), (3, 200000, 4, False), (2, 200000, 3, True), (4, 0, 3, True)):
+        bad, tot = runs(P, lw, k)
+        stats["timed_runs"] = stats.get("timed_runs", 0) + tot
+        ctx.count({"timed": [prec, P, lw]}, kind="drv:timed-P%d-%s" % (P, "user" if lw else "system"))
+        if not bad:
+            continue
+        stats["timed_bad"] = stats.get("timed_bad", 0) + len(bad)
+        case = drv_case("t", "gstrf", P, lw, mat, n, env=env, poison=0).replace("END\n", "DELAY 1\nEND\n")
+        if expect_clean:
+            ctx.violation("p%sgstrf nprocs=%d lwork=%d under the timed schedule: %s (%d of %d runs) - NOT explained by the WorkFree defect"
+                          % (PCH[prec], P, lw, bad[0], len(bad), tot),
+                          {"part": "timed", "prec": prec, "P": P, "lwork": lw, "case": case},
+                          key={"kind": "user_workspace", "defect": "unpredicted", "prec": PCH[prec]})
+        else:
+            ctx.violation("p%sgstrf nprocs=%d, ample aligned user workspace, timed (legal) schedule: %s (%d of %d runs); clean with nprocs=2 and "
+                          "with lwork=0 under the same timing" % (PCH[prec], P, bad[0], len(bad), tot),
+                          {"part": "timed", "prec": prec, "P": P, "lwork": lw, "case": case},
+                          key={"kind": "user_workspace", "defect": "workfree_resets_live_tail", "prec": PCH[prec]})
 
 
 # ----------------------------------------------------------------------------- fault enumeration
@@ -799,8 +863,9 @@ def run(ctx):
         "system-allocator failure at an arbitrary site is enumerated with the fault flavour, not proved",
         "int_t overflow and float->int conversion above 2^31 (info for > 2 GB) not modelled",
         "p?gstrf_expand with no_expand != 0 / p?gstrf_MemXpand not modelled (no caller in SRC)",
-        "interleavings inside WorkInit are modelled (run_sched, two _refuted witnesses) but the real threads are only observed "
-        "at call granularity (no hook to force the interleaving)",
+        "interleavings inside WorkInit are modelled (run_sched / run_init: one safety theorem under alignment hypotheses, two _refuted "
+        "witnesses, refinement lemma to the sequential work_init) but the real threads are only observed at call granularity; the WorkFree "
+        "race is shown on the real threads with a timed schedule (observation hook used for delays only)",
         "fault flavour is compiled with -Dmalloc=ledger_plain_malloc -Dfree=ledger_plain_free because the library mixes plain and "
         "SUPERLU_ allocation calls (reported as finding user_malloc_override)",
     ]
@@ -811,11 +876,6 @@ def run(ctx):
     ]
     stats = new_stats()
     make_threadsafe(ctx)
-    # development aid (mutation testing): extra known-findings file, same format as known_findings.json
-    xk = os.environ.get("VERIF_EXTRA_KNOWN")
-    if xk and os.path.exists(xk):
-        ctx.known += [k for k in json.load(open(xk)).get("findings", [])]
-        ctx.log("extra known findings loaded from", xk)
     proofs_ok = ctx.coq_properties()
     tools = Tools(ctx)
     quick = ctx.quick()
@@ -862,8 +922,12 @@ def run(ctx):
     for prec in range(4):
         drv_workspace_sweep(ctx, tools, rng, prec, stats)
         drv_meminit_failure(ctx, tools, rng, prec, stats)
-    for prec in ([1] if quick else [0, 1, 2, 3]):
-        drv_thread_stress(ctx, tools, rng, prec, stats, 800 if quick else 12000)
+    for prec in range(4):
+        drv_thread_timed(ctx, tools, rng, prec, stats)
+    ctx.corr("driver_level_timed_schedule_runs", stats.get("timed_runs", 0))
+    ctx.corr("driver_level_timed_schedule_bad", stats.get("timed_bad", 0))
+    for prec in ([] if quick else [0, 1, 2, 3]):
+        drv_thread_stress(ctx, tools, rng, prec, stats, 12000)
     ctx.corr("driver_level_thread_stress_runs", stats.get("stress_runs", 0))
     ctx.corr("driver_level_thread_stress_bad", stats.get("stress_bad", 0))
     # guarded buffer with ASan red zones
@@ -915,6 +979,8 @@ def replay(ctx, obj):
         bad = (not r) or (not r["end"].startswith("exit:0")) or (res and (res.get("canary") == "bad" or (res.get("info") == "0" and res.get("inbuf") == "bad")))
         if res and not bad and res.get("info") == "0":
             bad = float(res.get("relerr", "nan")) > (1e-3 if prec in (0, 2) else 1e-9) or res.get("xmatch") == "0" and rp.get("P") == 1
+        if res and not bad and "expect_info" in rp:
+            bad = int(res["info"]) != int(rp["expect_info"])
         if bad:
             ctx.violation("replay: p%s driver with user workspace still fails: %s %s" % (PCH[prec], r and r["end"], res), rp,
                           key=obj.get("key") or {"kind": "user_workspace", "defect": "replay", "prec": PCH[prec]})
@@ -944,6 +1010,15 @@ def replay(ctx, obj):
         ctx.log("replay stress: %d bad of %d runs" % (nbad, N))
         if nbad:
             ctx.violation("replay: %d of %d runs with nprocs=%s and an ample user workspace gave a wrong result" % (nbad, N, rp.get("P")), rp,
+                          key=obj.get("key") or {"kind": "user_workspace", "defect": "workfree_resets_live_tail", "prec": PCH[prec]})
+    elif part == "timed":
+        prec = rp["prec"]
+        exe = tools.exe("drv", prec, "hooks")
+        text = "".join(rp["case"].replace("CASE t", "CASE t%d" % i) for i in range(6))
+        out = parse_drv(run_cases(exe, text, alarm=30))
+        nbad = sum(1 for r in out.values() if not r["res"] or r["res"]["info"] != "0" or float(r["res"]["relerr"]) > (1e-3 if prec in (0, 2) else 1e-9))
+        if nbad:
+            ctx.violation("replay: %d of %d timed runs with nprocs=%s lwork=%s gave a wrong result" % (nbad, len(out), rp.get("P"), rp.get("lwork")), rp,
                           key=obj.get("key") or {"kind": "user_workspace", "defect": "workfree_resets_live_tail", "prec": PCH[prec]})
     elif part == "mixed":
         mixed_allocator_check(ctx, tools, ctx.rng, stats)
